@@ -44,9 +44,9 @@ def strategy(draw, tier="quick"):
     init = [draw(st.lists(_ev(), min_size=1, max_size=5)) for _ in range(nb)]
     ops = []
     for _ in range(draw(st.integers(1, 20))):
-        kind = draw(st.sampled_from(["insert", "insert_id", "insert_many", "replace", "replace", "replace_last", "replace_last", "delete", "delete", "update_bucket", "recreate", "other_insert", "other_insert", "insert_many_bad"]))
+        kind = draw(st.sampled_from(["insert", "insert_id", "insert_many", "replace", "replace", "replace_last", "replace_last", "delete", "delete", "update_bucket", "recreate", "other_insert", "other_insert", "insert_many_bad", "newest_cycle"]))
         op = {"op": kind, "chk": draw(st.booleans())}
-        if kind in ("other_insert", "insert_many_bad"):
+        if kind in ("other_insert", "insert_many_bad", "newest_cycle"):
             op["e"] = draw(_ev())
             op["k"] = draw(st.integers(0, 5))
         if kind in ("insert", "replace_last"):
@@ -150,7 +150,21 @@ def run_case(case):
                 continue
             try:
                 b = ds[A]
-                if kind == "insert_many_bad":
+                if kind == "newest_cycle":
+                    # A's newest event is rewritten, deleted, another bucket receives an event, A's newest is rewritten again
+                    far = stores.mk_event(Event, {"us": BASE_US + (900 + step) * 10**6, "off": 0, "dur_us": 10**6, "data": {"k": "top"}})
+                    top = b.insert(far)
+                    b.replace_last(stores.mk_event(Event, {"us": BASE_US + (900 + step) * 10**6, "off": 0, "dur_us": 2 * 10**6, "data": {"k": "top2"}}))
+                    b.delete(top.id)
+                    dead.append(top.id)
+                    others = [n for n in names if n != A]
+                    tgt = others[op.get("k", 0) % len(others)]
+                    ev2 = _mk(Event, op["e"])
+                    r2 = ds[tgt].insert(ev2)
+                    before[tgt][1].append((r2.id, gen.to_us(ev2.timestamp), gen.td_us(ev2.duration), json.dumps(ev2.data, sort_keys=True)))
+                    before[tgt][1].sort()
+                    b.replace_last(_mk(Event, op["e"]))
+                elif kind == "insert_many_bad":
                     # a bulk insert that must be rejected half-way: the second event cannot be serialised
                     good = _mk(Event, op["e"])
                     bad = _mk(Event, op["e"])
